@@ -41,7 +41,7 @@ type step struct {
 }
 
 var classCount = map[string]int64{}
-var totalReq, totalAccepted, totalAcks, totalWraps, totalReconnects, totalAckFailures int64
+var totalReq, totalAccepted, totalAcks, totalWraps, totalReconnects, totalAckFailures, heartbeatReconnects int64
 
 var errAckSend = errors.New("injected: no buffer space available")
 
@@ -67,6 +67,8 @@ func stream(seed int64, tcp bool, consumer string, procs int, n int, real bool) 
 	var cmu sync.Mutex
 	epoch := 0
 	wantNew := true
+	failHeartbeat := false
+	hbMode := seed%2 == 0 // every second reconnect of these runs is caused by a failed heartbeat
 	chanOf := func(e int) uint8 { return uint8(16 + 37*e) }
 	s.Handler = func(ev memsock.Event) {
 		if ev.P.Service == spec.SvcConnReq {
@@ -78,6 +80,18 @@ func stream(seed int64, tcp bool, consumer string, procs int, n int, real bool) 
 			ch := chanOf(epoch)
 			cmu.Unlock()
 			s.Deliver(&knxnet.ConnRes{Channel: ch, Control: knxnet.HostInfo{Protocol: knxnet.UDP4}})
+		}
+		if ev.P.Service == spec.SvcConnStateReq {
+			// heartbeat: healthy, unless this epoch is to end by a failed heartbeat
+			cmu.Lock()
+			status := knxnet.ErrCode(0)
+			if failHeartbeat && ev.P.Channel == chanOf(epoch) {
+				status = knxnet.ErrConnectionID
+				failHeartbeat = false
+				wantNew = true
+			}
+			cmu.Unlock()
+			s.Deliver(&knxnet.ConnStateRes{Channel: ev.P.Channel, Status: status})
 		}
 	}
 	var failAcks bool = !real && seed%3 == 0
@@ -93,6 +107,9 @@ func stream(seed int64, tcp bool, consumer string, procs int, n int, real bool) 
 		}
 	}
 	tcfg := knx.TunnelConfig{ResendInterval: 5 * time.Millisecond, HeartbeatInterval: 10 * time.Minute, ResponseTimeout: 200 * time.Millisecond, UseTCP: tcp}
+	if hbMode {
+		tcfg.HeartbeatInterval = 4 * time.Millisecond
+	}
 	var c *tun.Client
 	var err error
 	if real {
@@ -147,6 +164,7 @@ func stream(seed int64, tcp bool, consumer string, procs int, n int, real bool) 
 	var steps []step
 	nextID := uint32(1)
 	wraps := 0
+	totalReconnectsHere := 0
 	reconnectEvery := 90 + rng.Intn(60)
 	if seed%2 == 1 {
 		reconnectEvery = 700 + rng.Intn(200) // long epochs: the wrap at 256 is crossed
@@ -256,12 +274,24 @@ func stream(seed int64, tcp bool, consumer string, procs int, n int, real bool) 
 		if i > 0 && i%reconnectEvery == 0 {
 			// gateway-initiated disconnect, reconnect, sync point
 			from := s.Len()
-			cmu.Lock()
-			wantNew = true
-			cmu.Unlock()
-			s.Deliver(&knxnet.DiscReq{Channel: ch})
+			how := "a disconnect request"
+			if hbMode && totalReconnectsHere%2 == 1 {
+				// the gateway has forgotten the connection: the next heartbeat is answered
+				// "unknown connection" and the client has to connect again
+				how = "a failed heartbeat"
+				cmu.Lock()
+				failHeartbeat = true
+				cmu.Unlock()
+				atomic.AddInt64(&heartbeatReconnects, 1)
+			} else {
+				cmu.Lock()
+				wantNew = true
+				cmu.Unlock()
+				s.Deliver(&knxnet.DiscReq{Channel: ch})
+			}
+			totalReconnectsHere++
 			if !s.WaitTx(spec.SvcConnReq, from, 1, 5*time.Second) {
-				r.Violate("receiver.no-reconnect", nil, map[string]interface{}{"signature": sig}, "no connect request after a disconnect request")
+				r.Violate("receiver.no-reconnect", nil, map[string]interface{}{"signature": sig}, "no connect request after "+how)
 				return
 			}
 			cmu.Lock()
@@ -438,6 +468,7 @@ func run(rr *mon.Run) {
 	r.Observe("acknowledgements_on_the_wire", totalAcks)
 	r.Observe("sequence_wraps_crossed", totalWraps)
 	r.Observe("reconnects", totalReconnects)
+	r.Observe("reconnects_after_failed_heartbeat", heartbeatReconnects)
 	r.Observe("acknowledgement_transmissions_failed_by_injection", totalAckFailures)
 	r.Assume("frames are injected in lock-step (next frame offered after the previous one was taken), so the acknowledgement trace is totally ordered")
 	r.Assume("before the first accepted telegram of an epoch, number 255 is not injected (there is no preceding number yet)")
